@@ -132,6 +132,7 @@ async fn main() -> Result<()> {
         .with_thread_ids(false)
         .with_file(false)
         .with_line_number(false)
+        .with_writer(std::io::stderr) // stdout carries the report (and only JSON with --json)
         .compact()
         .init();
 
